@@ -6,6 +6,8 @@ CONSTANTS
   Colls = {1, 12}
   Chans = {"ch", "ch1"}
   MsgIds = {"m", "m1"}
+  Reserved = {"rpc", "tmp"}
+  PosKeyPositive = FALSE
   ZeroColl = TRUE
   Backend = "mysql"
   DelNoRoot = FALSE
